@@ -193,7 +193,9 @@ theorem pipeline_total (cfg : Config) (env : Env) (ws : List Str) (hrep : cfg.re
     intro q hqe
     obtain ⟨b, hb, e, he, rfl⟩ := (mem_recreate_edges _ pickMin p q).mp hqe
     have hee := ((mem_outEdges' _ _ e).mp he).1
-    exact trie_labels (fun g => ∃ s, s ≠ [] ∧ g = Grapheme.ofStr s) cls hcls hof e hee
+    obtain ⟨s, hs, hl⟩ := trie_labels (fun g => ∃ s, s ≠ [] ∧ g = Grapheme.ofStr s) cls hcls hof e hee
+    show e.label.Plainish
+    rw [hl]; exact Expr.plainish_ofStr s hs
   have hN : 1 ≤ m.nodes := by omega
   have hdfs := dfsOK_of_bounded m hinit hdst
   have hacyc : ∀ c w, Path m c w c → w = [] := fun c w pth => recreate_acyclic ht hst c w pth
